@@ -62,6 +62,18 @@ CHECKS["C06"] = {
     "note": "The polarity facts are read from the constants assigned under each edge of the comparison; IEEE -0.0 == 0.0 and Number::as_f64 are trusted.",
     "technique": "must-call / who-may-call rules on operator units; variant specialisation of the truthiness function with constant-under-edge polarity reading",
 }
+CHECKS["C13"] = {
+    "level": "other",
+    "text": "For map, filter and reduce: by variant specialisation over Evaluated::{New,Raw} × the six JSON kinds of the evaluated collection (36 cases) Array iterates the elements, Null iterates an empty vector, every other kind returns Err without reaching the iteration — identical in the three; the collection (and reduce's initial value) is parsed and evaluated exactly once against the outer data, outside the per-element code, the expression parsed once; the data of the per-element evaluation never carries outer-data provenance (interprocedural tags) — the element itself in map/filter, a map built in place with exactly the keys current ← element and accumulator ← running value in reduce; map is collect(map(..)), filter pushes the element itself only under the truthy edge of the shared truthiness of the predicate's value, reduce is a left fold seeded with the evaluated initial value; no reordering/filtering adaptor; nothing below the three operators parses a computed value.",
+    "note": "Results on nested expressions are value-level and not decided. Trusted: std adaptor transfer models (rules/prov.py), C06 for the truthiness table.",
+    "technique": "variant specialisation of operator units, interprocedural provenance tags at evaluation sites, def-use/dominance shape rules",
+}
+CHECKS["C14"] = {
+    "level": "other",
+    "text": "none calls some once with its own operands and maps Bool(b) to Bool(not b); collection normalisation decided by variant specialisation over (kind of the literal operand) × (kind an operation operand evaluates to): Array→elements, String→str::chars (no bytes/UTF-16/offset splitting anywhere in the helper reach), Null→nothing, other kinds→Err, only operation operands evaluated first, identical in all and some; a dominating length-zero test returns the constant false; every per-element predicate evaluation is under a short-circuiting consumer or in a closure with a success path that evaluates nothing, fold seeds true/false and the decided path returns false/true; only elements of the literal array are ever parsed (provenance, case split); verdicts through the shared truthiness.",
+    "note": "Duality laws as value statements are not decided beyond these shapes. Trusted: std adaptor models, str::chars semantics, C06.",
+    "technique": "exact-negation rule, two-level variant specialisation, path-existence rules on per-element closures, constant-under-edge reading, provenance",
+}
 NOT_APPLICABLE = {}
 for i in range(1, 20):
     p = "C%02d" % i
